@@ -329,9 +329,15 @@ func allocMonitorInit() {
 // included, or right after a single large allocation so that its span is
 // reused by the next one instead of being faulted in afresh.
 func allocHousekeeping() {
-	if ms1.TotalAlloc-lastGCTotal > 48<<20 || ms1.TotalAlloc-ms0.TotalAlloc > 8<<20 {
+	delta := ms1.TotalAlloc - ms0.TotalAlloc
+	if ms1.TotalAlloc-lastGCTotal > 48<<20 || delta > 8<<20 {
 		runtime.GC()
 		lastGCTotal = ms1.TotalAlloc
+		if delta > 96<<20 {
+			// never happens on a decoder that honours its limits (largest legal
+			// buffer: 64 MiB); give the pages back at once
+			debug.FreeOSMemory()
+		}
 	}
 }
 
